@@ -134,6 +134,10 @@ fn run_property(id: &str, tier: &Tier, known: &Known) -> i32 {
     if reg.stats.evaluations > 0 || reg.harness_error.is_some() {
         results.push(reg);
     }
+    if id == "C19" || id == "C05" {
+        let pid: &'static str = if id == "C19" { "C19" } else { "C05" };
+        results.push(vcheck::p_builder::run_external(pid, tier.quick, tier.seed));
+    }
     for s in &subs {
         let cases = if tier.quick { s.quick } else { s.thorough };
         results.push(
@@ -229,6 +233,15 @@ fn main() {
         .unwrap_or(16);
     let code = if args[1] == "replay" {
         replay(&args[2])
+    } else if args[1] == "layouts" {
+        // vcheck layouts <plans.jsonl> <out.jsonl>: summaries computed in this (separate) process
+        match vcheck::nopar::run_file(&args[2], &args[3], 2) {
+            Ok(_) => 0,
+            Err(e) => {
+                eprintln!("{}", e);
+                2
+            }
+        }
     } else if args[1] == "fuzz-artifact" {
         // vcheck fuzz-artifact <ID> <artifact file> <replay out>: turn a libFuzzer crash input into a
         // replay file of the sub-check that fails on it
